@@ -7,8 +7,9 @@ LEVEL = 'model_checking'
 RULE = ('every clause body tree with <= N operators from , ; -> \\+ over the 8 leaves '
         '{true fail ! z o(Vi) m(Vi) m(V1) k(Vi)} that contains at least one cut in a transparent '
         'position and none in an opaque one, placed in the context p(..):-BODY. p(9..). '
-        'c(..,Z):-m(Z),p(..). plus a dynamic fact p(7..) (and, thorough, a second script adding '
-        'p(6..) without overwrite); compiled, loaded into a fresh engine, query c(A1..Ak,Z) run twice '
+        'c(..,Z):-m(Z),p(..). plus a dynamic fact p(7..), in 6 context variants: with / without a two-solution goal to '
+        'the LEFT of the body x 0, 1 or 2 goals to its RIGHT (thorough, 3 operators: 2 of the 6 variants; and a second '
+        'script adding p(6..) without overwrite); compiled, loaded into a fresh engine, query c(A1..Ak,Z) run twice '
         'and compared answer by answer with RefProlog. states = distinct answer sequences; '
         'transitions = next() calls on the real engine; non-trivial = at least one answer')
 ASSUMPTIONS = ['RefProlog (mc/refprolog.py) implements standard cut semantics',
@@ -36,10 +37,16 @@ def select(t):
 
 def run_shard(spec):
     k, n, maxops, tier = spec
-    variants = [dict(continuation=False, extra_script=False)]
-    if tier == 'thorough':
-        variants.append(dict(continuation=False, extra_script=True))
-    return treecheck.run_trees((k, n, maxops), select, variants)
+    # context variants: a goal with alternatives to the left of the body (the cut must discard
+    # them) and 0, 1 or 2 goals to its right (they must still backtrack)
+    full = [dict(prefix=pf, suffix=sf) for pf in (False, True) for sf in (0, 1, 2)]
+    if tier == 'quick':
+        return treecheck.run_trees((k, n, maxops), select, full)
+    acc = treecheck.run_trees((k, n, 2), select, full + [dict(extra_script=True)])
+    acc3 = treecheck.run_trees((k, n, 3), lambda t: ('other-property' if bodies.count_ops(t) < 3 else select(t)),
+                               [dict(), dict(prefix=True, suffix=2), dict(extra_script=True)])
+    acc.merge(acc3)
+    return acc
 
 
 replay = treecheck.replay
